@@ -246,6 +246,8 @@ package cache
 //@ def entriesKept() := forall p *TraitEntry :: old(allocated(p)) ==> entryKept(p)
 // The janitor skips its scan in a cache configured with UnlimitedTTL as long as the counter of per-call TTLs is
 // zero (invokeCleanup, C11.skip). The skip is exact only under this invariant: such a cache holds no expiring entry.
+// An entry is stored under the hash of its own key (what Dump relies on to tell entries apart).
+//@ def keyedOK(c) := forall h uint64 :: hasH(c, h) ==> hash(bytes(ent(c, h).K)) == h
 //@ def unlimitedInv(c) := c.t.Config.TimeToLive == UnlimitedTTL && c.t.expirationsSet == 0 ==> (forall h uint64 :: hasH(c, h) ==> ent(c, h).E == 0)
 
 //@ type hashedBucket
@@ -301,6 +303,7 @@ package cache
 //@   ensures [C18.write.nostat] c.t.Stat == nil ==> noMetric()
 //@   ensures [C07.write.repok] repOK(c)
 //@   ensures [C11.unl.write] old(unlimitedInv(c)) ==> unlimitedInv(c)
+//@   ensures [C13.keyed.write] old(keyedOK(c)) ==> keyedOK(c)
 //@   modifies H|TraitEntry|* E|byte|* M|map[uint64]*TraitEntry|* H|Trait|.expirationsSet @stat @log G|clock G|clk G|nclk G|rand
 
 // Delete: ErrNotFound exactly for keys that are not present (a colliding key is not present); otherwise the
@@ -448,6 +451,7 @@ package cache
 //@ def sGet(c, s) := smGet(c.data, s)
 //@ def sEnt(c, s) := payload(smGet(c.data, s), *TraitEntry)
 //@ def sRepOK(c) := c.t != nil && smValuesAre(c.data, *TraitEntry)
+//@ def sKeyedOK(c) := smKeysAre(c.data, string) && (forall s string :: sHas(c, s) ==> bytes(sEnt(c, s).K) == s)
 //@ def sUnlimitedInv(c) := c.t.Config.TimeToLive == UnlimitedTTL && c.t.expirationsSet == 0 ==> (forall s string :: sHas(c, s) ==> sEnt(c, s).E == 0)
 //@ def sMapKept(c) := forall s string :: sHas(c, s) == old(sHas(c, s)) && sGet(c, s) == old(sGet(c, s))
 
@@ -494,6 +498,7 @@ package cache
 //@   ensures [C18.sm.write.metric] c.t.Stat != nil ==> onlyMetric(MetricWrite, 1.0)
 //@   ensures [C07.sm.write.repok] sRepOK(c)
 //@   ensures [C11.unl.sm.write] old(sUnlimitedInv(c)) ==> sUnlimitedInv(c)
+//@   ensures [C13.keyed.sm.write] old(sKeyedOK(c)) ==> sKeyedOK(c)
 //@   modifies H|TraitEntry|* E|byte|* SM|* H|Trait|.expirationsSet @stat @log G|clock G|clk G|nclk G|rand
 
 // Delete: "removes a cache entry with a given key and returns ErrNotFound for non-existent keys" (cache.go, Deleter).
@@ -1106,27 +1111,35 @@ package cache
 
 //@ def recIs(p, j) := p != nil && bytes(p.K) == gobK(j) && p.V == gobV(j) && p.E == gobE(j) && p.C == gobC(j)
 //@ def recIsOf(p, j) := p != nil && bytes(p.K) == gobK(j) && p.V == gobVOf(j) && p.E == gobE(j) && p.C == gobC(j)
+// Two sharded maps share no bucket map (each constructor allocates its own 128 maps).
+//@ def apart(o, c) := forall i int :: forall j int :: 0 <= i && i < 128 && 0 <= j && j < 128 ==> o.hashedBuckets[i].data != c.hashedBuckets[j].data
 //@ def recStored(c, j) := hasH(c, hash(gobK(j))) && recIs(bucket(c, hash(gobK(j))).data[hash(gobK(j))], j)
 //@ def recStoredOf(c, j) := hasH(c, hash(gobK(j))) && recIsOf(bucket(c, hash(gobK(j))).data[hash(gobK(j))], j)
 //@ def recSMStored(c, j) := sHas(c, gobK(j)) && dyntype(sGet(c, gobK(j)), *TraitEntry) && recIs(sEnt(c, gobK(j)), j)
-//@ def distinctHashes() := forall a int :: forall b int :: 0 <= a && a < b && b < gobLen() ==> hash(gobK(a)) != hash(gobK(b))
-//@ def distinctKeys() := forall a int :: forall b int :: 0 <= a && a < b && b < gobLen() ==> gobK(a) != gobK(b)
+//@ def distinctHashes() := forall a int :: forall b int :: gobPos() <= a && a < b && b < gobLen() ==> hash(gobK(a)) != hash(gobK(b))
+//@ def distinctKeys() := forall a int :: forall b int :: gobPos() <= a && a < b && b < gobLen() ==> gobK(a) != gobK(b)
 //@ def nonEmptyKeys() := forall a int :: 0 <= a && a < gobLen() ==> len(gobK(a)) > 0
 
 //@ func (*ShardedMap).Restore
 //@   props C13 C09
 //@   requires c.shardedMap != nil && repOK(c.shardedMap) && distinctHashes()
-//@   requires c.shardedMap.t.expirationsSet >= 0 && c.shardedMap.t.expirationsSet < 4611686018427387904 - gobLen()
+//@   requires c.shardedMap.t.expirationsSet >= 0 && c.shardedMap.t.expirationsSet + (gobLen() - gobPos()) < 9223372036854775807
 //@   requires gobPos() <= gobLen() && gobLen() < 4611686018427387904
 //@   let p0 := old(gobPos())
 //@   ensures [C13.restore.count] result0 == gobPos() - p0
 //@   ensures [C13.restore.eof] result1 == nil ==> gobPos() == gobLen()
 //@   ensures [C13.restore.entries] forall j int :: p0 <= j && j < gobPos() ==> recStored(c.shardedMap, j)
 //@   ensures [C11.unl.restore] old(unlimitedInv(c.shardedMap)) ==> unlimitedInv(c.shardedMap)
+//@   ensures [C13.keyed.restore] old(keyedOK(c.shardedMap)) ==> keyedOK(c.shardedMap)
+//@   ensures [C13.restore.others] forall o *shardedMap :: old(allocated(o)) && apart(o, c.shardedMap) ==> mapKept(o)
+//@   ensures [C13.restore.entries.kept] entriesKept()
+//@   loop 1 invariant [C13.keyed.restore.inv] old(keyedOK(c.shardedMap)) ==> keyedOK(c.shardedMap)
 //@   loop 1 invariant [C11.unl.restore.inv] (old(unlimitedInv(c.shardedMap)) ==> unlimitedInv(c.shardedMap)) && c.shardedMap.t.expirationsSet >= old(c.shardedMap.t.expirationsSet) && c.shardedMap.t.expirationsSet <= old(c.shardedMap.t.expirationsSet) + n
 //@   loop 1 invariant [C13.restore.inv.count] n == gobPos() - p0 && n >= 0 && p0 <= gobPos() && gobPos() <= gobLen()
 //@   loop 1 invariant [C13.restore.inv.entries] forall j int :: p0 <= j && j < gobPos() ==> recStored(c.shardedMap, j)
 //@   loop 1 invariant [C13.restore.inv.rep] repOK(c.shardedMap)
+//@   loop 1 invariant [C13.restore.inv.others] (forall o *shardedMap :: old(allocated(o)) && apart(o, c.shardedMap) ==> mapKept(o)) && entriesKept()
+//@   modifies new:H|TraitEntry|* new:E|byte|* M|map[uint64]*TraitEntry|* H|Trait|.expirationsSet G|gob|pos G|alloc new:H|*
 //@   replay restore backend:=sharded
 //@   replayfor C11.unl unlimited backend:=sharded
 
@@ -1135,7 +1148,6 @@ package cache
 // Every entry of the cache is encoded exactly once (entries), every appended record comes from an entry of the
 // cache (only), the count is the number of appended records, and the cache is unchanged. keyedOK - an entry is
 // stored under the hash of its own key - is established by Write and Restore.
-//@ def keyedOK(c) := forall h uint64 :: hasH(c, h) ==> hash(bytes(ent(c, h).K)) == h
 //@ def encoded(p, l0) := l0 <= gobIdx(p) && gobIdx(p) < gobLen() && gobSrc(gobIdx(p), *TraitEntry) == p && recIs(p, gobIdx(p))
 //@ def srcKey(j) := hash(bytes(gobSrc(j, *TraitEntry).K))
 //@ def srcOK(c, j) := gobSrc(j, *TraitEntry) != nil && hasH(c, srcKey(j)) && ent(c, srcKey(j)) == gobSrc(j, *TraitEntry) && gobIdx(gobSrc(j, *TraitEntry)) == j
@@ -1148,9 +1160,9 @@ package cache
 //@   ensures [C13.dump.count] result0 == gobLen() - l0 && result0 >= 0
 //@   ensures [C13.dump.entries] result1 == nil ==> forall h uint64 :: hasH(c.shardedMap, h) ==> encoded(ent(c.shardedMap, h), l0)
 //@   ensures [C13.dump.only] forall j int :: l0 <= j && j < gobLen() ==> srcOK(c.shardedMap, j)
-//@   ensures [C13.dump.kept] mapKept(c.shardedMap) && entriesKept()
+//@   ensures [C13.dump.kept] mapKept(c.shardedMap) && entriesKept() && gobPos() == old(gobPos())
 //@   ensures [C13.dump.prefix] forall j int :: 0 <= j && j < l0 ==> gobK(j) == old(gobK(j)) && gobV(j) == old(gobV(j)) && gobE(j) == old(gobE(j)) && gobC(j) == old(gobC(j))
-//@   modifies G|gob|* G|alloc
+//@   modifies G|gob|K G|gob|Vtag G|gob|Vval G|gob|E G|gob|C G|gob|len G|gob|src G|gob|idx G|alloc
 
 //@ func (*shardedMap).Walk
 //@   inline
@@ -1160,7 +1172,7 @@ package cache
 //@   loop 1 invariant [C13.walk.o.only] forall j int :: old(gobLen()) <= j && j < gobLen() ==> srcOK(c, j) && srcKey(j) % 128 <= rangeindex
 //@   loop 1 invariant [C13.walk.o.kept] mapKept(c) && entriesKept()
 //@   loop 1 invariant [C13.walk.o.prefix] forall j int :: 0 <= j && j < old(gobLen()) ==> gobK(j) == old(gobK(j)) && gobV(j) == old(gobV(j)) && gobE(j) == old(gobE(j)) && gobC(j) == old(gobC(j))
-//@   loop 1 modifies G|gob|*
+//@   loop 1 modifies G|gob|K G|gob|Vtag G|gob|Vval G|gob|E G|gob|C G|gob|len G|gob|src G|gob|idx
 //@   loop 2 (range b.data) invariant [C13.walk.i.count] n == gobLen() - old(gobLen()) && n >= 0
 //@   loop 2 invariant [C13.walk.i.visited] forall h uint64 :: hasH(c, h) && h % 128 == i && visited(h) ==> encoded(ent(c, h), old(gobLen()))
 //@   loop 2 invariant [C13.walk.i.done] forall h uint64 :: hasH(c, h) && h % 128 < i ==> encoded(ent(c, h), old(gobLen()))
@@ -1168,7 +1180,76 @@ package cache
 //@       srcOK(c, j) && (srcKey(j) % 128 < i || (srcKey(j) % 128 == i && visited(srcKey(j))))
 //@   loop 2 invariant [C13.walk.i.kept] mapKept(c) && entriesKept()
 //@   loop 2 invariant [C13.walk.i.prefix] forall j int :: 0 <= j && j < old(gobLen()) ==> gobK(j) == old(gobK(j)) && gobV(j) == old(gobV(j)) && gobE(j) == old(gobE(j)) && gobC(j) == old(gobC(j))
-//@   loop 2 modifies G|gob|*
+//@   loop 2 modifies G|gob|K G|gob|Vtag G|gob|Vval G|gob|E G|gob|C G|gob|len G|gob|src G|gob|idx
+
+// SyncMap.Dump: the same contract over the assumed sync.Map contract (Range visits every key present throughout
+// the call exactly once). sKeyedOK: an entry is stored under its own key bytes (established by Write and Restore).
+//@ def sSrcKey(j) := bytes(gobSrc(j, *TraitEntry).K)
+//@ def sSrcOK(c, j) := gobSrc(j, *TraitEntry) != nil && sHas(c, sSrcKey(j)) && sEnt(c, sSrcKey(j)) == gobSrc(j, *TraitEntry) && gobIdx(gobSrc(j, *TraitEntry)) == j
+
+//@ func (*SyncMap).Dump
+//@   props C13
+//@   requires c.syncMap != nil && sRepOK(c.syncMap) && sKeyedOK(c.syncMap)
+//@   requires gobPos() <= gobLen()
+//@   let l0 := old(gobLen())
+//@   ensures [C13.sm.dump.count] result1 == nil ==> result0 == gobLen() - l0 && result0 >= 0
+//@   ensures [C13.sm.dump.entries] result1 == nil ==> forall s string :: sHas(c.syncMap, s) ==> encoded(sEnt(c.syncMap, s), l0)
+//@   ensures [C13.sm.dump.only] forall j int :: l0 <= j && j < gobLen() ==> sSrcOK(c.syncMap, j)
+//@   ensures [C13.sm.dump.kept] sMapKept(c.syncMap) && entriesKept() && gobPos() == old(gobPos())
+//@   modifies G|gob|K G|gob|Vtag G|gob|Vval G|gob|E G|gob|C G|gob|len G|gob|src G|gob|idx G|alloc
+
+//@ func (*syncMap).Walk
+//@   inline
+//@   range 1 invariant [C13.sm.walk.count] n == gobLen() - old(gobLen()) && n >= 0
+//@   range 1 invariant [C13.sm.walk.visited] forall s string :: visited(s) && sHas(c, s) ==> encoded(sEnt(c, s), old(gobLen()))
+//@   range 1 invariant [C13.sm.walk.only] forall j int :: old(gobLen()) <= j && j < gobLen() ==> sSrcOK(c, j) && visited(sSrcKey(j))
+//@   range 1 invariant [C13.sm.walk.kept] sMapKept(c) && entriesKept() && smValuesAre(c.data, *TraitEntry) && sKeyedOK(c)
+
+// The relay lemma (lemmas_verif.go): Dump into an empty pipe followed by Restore from it reproduces every entry of
+// the source - same key bytes, value, expiry and counter - in the target, both calls report the number of
+// entries, and the source is unchanged. Proved from the two contracts alone (modular calls).
+//@ def sameEntry(a, b) := a != nil && b != nil && bytes(a.K) == bytes(b.K) && a.V == b.V && a.E == b.E && a.C == b.C
+//@ func verifRelay
+//@   props C13
+//@   requires src != nil && dst != nil && src.shardedMap != nil && dst.shardedMap != nil && src.shardedMap != dst.shardedMap
+//@   requires repOK(src.shardedMap) && keyedOK(src.shardedMap) && repOK(dst.shardedMap) && apart(src.shardedMap, dst.shardedMap)
+//@   requires gobPos() == gobLen() && gobLen() < 1152921504606846976
+//@   requires dst.shardedMap.t.expirationsSet >= 0 && dst.shardedMap.t.expirationsSet < 1152921504606846976
+//@   ensures [C13.relay.count] result2 == nil ==> result0 == result1
+//@   ensures [C13.relay.entries] result2 == nil ==> forall h uint64 :: hasH(src.shardedMap, h) ==>
+//@       hasH(dst.shardedMap, h) && sameEntry(ent(dst.shardedMap, h), ent(src.shardedMap, h))
+//@   ensures [C13.relay.source] mapKept(src.shardedMap)
+
+//@ func verifRelayToSync
+//@   props C13
+//@   requires src != nil && dst != nil && src.shardedMap != nil && dst.syncMap != nil
+//@   requires repOK(src.shardedMap) && keyedOK(src.shardedMap) && sRepOK(dst.syncMap)
+//@   requires gobPos() == gobLen()
+//@   requires dst.syncMap.t.expirationsSet >= 0 && dst.syncMap.t.expirationsSet < 1152921504606846976
+//@   ensures [C13.relay.s2y.count] result2 == nil ==> result0 == result1
+//@   ensures [C13.relay.s2y.entries] result2 == nil ==> forall h uint64 :: hasH(src.shardedMap, h) ==>
+//@       sHas(dst.syncMap, bytes(ent(src.shardedMap, h).K)) && sameEntry(sEnt(dst.syncMap, bytes(ent(src.shardedMap, h).K)), ent(src.shardedMap, h))
+//@   ensures [C13.relay.s2y.source] mapKept(src.shardedMap)
+
+// From a SyncMap: the sharded target cannot hold two keys of equal hash (C09: "a collision may at most cost a
+// miss"), so the lemma is stated for sources without such a pair.
+//@ func verifRelayFromSync
+//@   props C13
+//@   requires src != nil && dst != nil && src.syncMap != nil && dst.shardedMap != nil
+//@   requires sRepOK(src.syncMap) && sKeyedOK(src.syncMap) && repOK(dst.shardedMap)
+//@   requires forall a string :: forall b string :: sHas(src.syncMap, a) && sHas(src.syncMap, b) && a != b ==> hash(a) != hash(b)
+//@   requires gobPos() == gobLen()
+//@   requires dst.shardedMap.t.expirationsSet >= 0 && dst.shardedMap.t.expirationsSet < 1152921504606846976
+//@   ensures [C13.relay.y2s.count] result2 == nil ==> result0 == result1
+//@   ensures [C13.relay.y2s.entries] result2 == nil ==> forall s string :: sHas(src.syncMap, s) ==>
+//@       hasH(dst.shardedMap, hash(s)) && sameEntry(ent(dst.shardedMap, hash(s)), sEnt(src.syncMap, s))
+//@   ensures [C13.relay.y2s.source] sMapKept(src.syncMap)
+
+//@ func (*ShardedMapOf[V]).Dump
+//@   like (*ShardedMap).Dump subst TraitEntry=TraitEntryOf[V] recIs=recIsOf shardedMap=shardedMapOf
+//@ func (*shardedMapOf[V]).Walk
+//@   inline
+//@   like (*shardedMap).Walk subst TraitEntry=TraitEntryOf[V] recIs=recIsOf shardedMap=shardedMapOf
 
 //@ func (*ShardedMapOf[V]).Restore
 //@   like (*ShardedMap).Restore subst recStored=recStoredOf shardedMap=shardedMapOf
@@ -1178,18 +1259,22 @@ package cache
 //@ func (*SyncMap).Restore
 //@   props C13 C09
 //@   requires c.syncMap != nil && sRepOK(c.syncMap) && distinctKeys()
-//@   requires c.syncMap.t.expirationsSet >= 0 && c.syncMap.t.expirationsSet < 4611686018427387904 - gobLen()
+//@   requires c.syncMap.t.expirationsSet >= 0 && c.syncMap.t.expirationsSet + (gobLen() - gobPos()) < 9223372036854775807
 //@   requires gobPos() <= gobLen() && gobLen() < 4611686018427387904
 //@   let p0 := old(gobPos())
 //@   ensures [C13.sm.restore.count] result0 == gobPos() - p0
 //@   ensures [C13.sm.restore.eof] result1 == nil ==> gobPos() == gobLen()
 //@   ensures [C13.sm.restore.entries] forall j int :: p0 <= j && j < gobPos() ==> recSMStored(c.syncMap, j)
 //@   ensures [C11.unl.sm.restore] old(sUnlimitedInv(c.syncMap)) ==> sUnlimitedInv(c.syncMap)
+//@   ensures [C13.keyed.sm.restore] old(sKeyedOK(c.syncMap)) ==> sKeyedOK(c.syncMap)
+//@   ensures [C13.sm.restore.entries.kept] entriesKept()
+//@   modifies new:H|TraitEntry|* new:E|byte|* SM|* H|Trait|.expirationsSet G|gob|pos G|alloc new:H|*
+//@   loop 1 invariant [C13.keyed.sm.restore.inv] old(sKeyedOK(c.syncMap)) ==> sKeyedOK(c.syncMap)
 //@   loop 1 invariant [C11.unl.sm.restore.inv] (old(sUnlimitedInv(c.syncMap)) ==> sUnlimitedInv(c.syncMap)) && c.syncMap.t.expirationsSet >= old(c.syncMap.t.expirationsSet) && c.syncMap.t.expirationsSet <= old(c.syncMap.t.expirationsSet) + n
 //@   replayfor C11.unl unlimited backend:=syncmap
 //@   loop 1 invariant [C13.sm.restore.inv.count] n == gobPos() - p0 && n >= 0 && p0 <= gobPos() && gobPos() <= gobLen()
 //@   loop 1 invariant [C13.sm.restore.inv.entries] forall j int :: p0 <= j && j < gobPos() ==> recSMStored(c.syncMap, j)
-//@   loop 1 invariant [C13.sm.restore.inv.rep] sRepOK(c.syncMap)
+//@   loop 1 invariant [C13.sm.restore.inv.rep] sRepOK(c.syncMap) && entriesKept()
 //@   replay restore backend:=syncmap
 
 // ---------------------------------------------------------------------------------------------------
